@@ -313,7 +313,7 @@ def k1(env: Env, out: Outcome, workdir: str) -> None:
                     "boot|r1", "load", "has", "addop|r1|5|x", "addop|r1|9|y", "addop|r2|9|z", "purge|5", "boot|r2", "purge|0", "dump",
                     "boot|r3", "has", "purge|0", "record|a:0", "record|a:0", "boot|r3", "load", "truncate|r3|1", "rawload|r3", "dump"])
     streams.append(["new", "boot|r1"] + MALFORMED + ["dump"])
-    for _ in range(env.budget(15, 150)):
+    for _ in range(env.budget(10, 150)):
         streams.append(gen_k1_stream(env.rng, env.rng.randint(10, 60)))
     drv = Driver(MODEL)
     flat = [l for s in streams for l in s]
